@@ -10,8 +10,7 @@ import (
 )
 
 // Probe runs the explorer over fn and records the abstract states in which each target node is
-// reached (just before it executes).  track, if non-nil, is called for every call so a rule can
-// set its own registers ("did:<callee>" is always set after a call returns).
+// reached (just before it executes).
 type Probe struct {
 	X  *Explorer
 	At map[ast.Node][]*State
@@ -31,7 +30,6 @@ func (p *Prog) ProbeFn(fn *Fn, targets []ast.Node, hooks Hooks) *Probe {
 		if userCall != nil {
 			userCall(x, call, st)
 		}
-		st.Regs["did:"+CalleeName(x.Fn.Info(), call)] = "1"
 	}
 	hooks.Stmt = func(x *Explorer, n ast.Node, st *State) {
 		if want[n] {
